@@ -176,6 +176,7 @@ func c14(c *Ctx) {
 	c14ExportBuffer(c, "C14.1/export-buffer-under-lock")
 	c14TxHolders(c, "C14.1/tx-holders-released")
 	c14OngoingTxReleased(c, "C14.8/store-transactions-are-closed")
+	c14FrontWalkCoversWriters(c, "C14.10/front-walk-covers-every-writer")
 	// the truncation plan is a header or an error: the truncator dereferences what it is given (analysis shared with C16.14)
 	c16NoNilNil(c, "C14.9/truncation-plan-is-a-header-or-an-error", []string{"pkg/database", "pkg/truncator"})
 	// ---- C14.5 export of truncated transactions terminates ----------------------------------------------
@@ -601,4 +602,27 @@ func c14OngoingTxReleased(c *Ctx, r string) {
 	if n < 3 {
 		c.undecided(r, "floor", fmt.Sprintf("%d store transactions opened and closed by pkg/database found", n))
 	}
+}
+
+// c14FrontWalkCoversWriters: TruncateUptoTx looks, beyond the cut, for transactions whose values lie BELOW the offset
+// it is about to discard (values are appended to the value logs before the transaction gets its id, so out of id order).
+// A transaction that has written its values and is not committed yet is such a transaction too: the walk has to reach at
+// least the precommit frontier. (Writers that have appended values and hold no id yet are visible to nothing: the known
+// finding recorded under this rule covers both.)
+func c14FrontWalkCoversWriters(c *Ctx, r string) {
+	f := c.mustFn(r, storeT+"TruncateUptoTx")
+	if f == nil {
+		return
+	}
+	pre := callTo(storeT+"LastPrecommittedTxID", storeT+"PrecommittedAlh")
+	preField := false
+	allInstrs(f, true, func(in ssa.Instruction) {
+		if u, ok := in.(*ssa.UnOp); ok && u.Op == token.MUL {
+			if fl, _ := fieldOf(u.X); fl == "ImmuStore.inmemPrecommittedTxID" {
+				preField = true
+			}
+		}
+	})
+	c.check(len(sites(f, pre)) > 0 || preField, r, fnName(f)+":front-walk-reaches-the-precommit-frontier", c.pos(f.Pos()), "the forward walk is bounded by the precommit frontier",
+		"the forward walk of TruncateUptoTx ends at the last COMMITTED transaction: a transaction that has already written its values (precommitted, or still without an id) and ends up at or after the cut is not looked at, its values are discarded with the chunks below the computed offset")
 }
